@@ -68,6 +68,12 @@ def worlds(tier, focus):
             W.append(('long-head limit=%d long=%d' % (limit, dl),
                       World([Scen('z', 'C', 0, None, durs=(dl,), fails=(False,))] + [Scen('x%d' % i, 'C', 0, None, durs=(0,), fails=(False,)) for i in range(limit - 1)]
                             + [Scen('y', 'C', 1, None, durs=(0,), fails=(False,)), Scen('w', 'C', 1, None, durs=(1,), fails=(False,))], limit)))
+    if focus == 'C06':
+        # several attempts complete in the SAME pass of the loop (equal durations), more queued than slots: every slot is
+        # given back exactly once
+        for limit, n_ in (((2, 6),) if tier != 'thorough' else ((2, 6), (3, 8))):
+            W.append(('equal-durations limit=%d n=%d' % (limit, n_),
+                      World([Scen('q%d' % i, 'C', 0, None, durs=(1,), fails=(False,)) for i in range(n_)], limit)))
     if focus in ('C04', 'C07', 'C03', 'C05'):
         # lazily delivered features (parser stream Pending `late` polls before an item)
         for late in ((1, 2) if tier != 'thorough' else (1, 2, 3, 5)):
